@@ -13,6 +13,11 @@ mod cb;
 mod mgr;
 mod tow;
 mod cfg;
+mod ml;
+mod rules;
+mod rj;
+mod c12;
+mod req;
 pub mod util;
 
 fn main() {
@@ -22,7 +27,7 @@ fn main() {
         std::process::exit(2);
     }
     // keep panics quiet: they are observations, not failures of the harness
-    std::panic::set_hook(Box::new(|_| {}));
+    if std::env::var("VH_SHOW_PANICS").is_err() { std::panic::set_hook(Box::new(|_| {})); }
     let f: fn(&mut util::Toks) -> Vec<i128> = match args[1].as_str() {
         "c02" => c02::run_case,
         "c13" => c13::run_case,
@@ -33,6 +38,10 @@ fn main() {
         "mgr" => mgr::run_case,
         "tow" => tow::run_case,
         "cfg" => cfg::run_case,
+        "ml" => ml::run_case,
+        "rj" => rj::run_case,
+        "c12" => c12::run_case,
+        "req" => req::run_case,
         p => {
             eprintln!("unknown property {}", p);
             std::process::exit(2);
